@@ -12,6 +12,7 @@ import (
 	"net/http/httptest"
 	"os"
 	"path/filepath"
+	"regexp"
 	"runtime"
 	"sort"
 	"strconv"
@@ -150,7 +151,17 @@ func goid() uint64 {
 	return 0
 }
 
-func (e *Env) san(s string) string { return strings.ReplaceAll(s, e.Dir, "$D") }
+// san removes what differs between executions of the same program from a log
+// line: the scratch directory and WAL salts (SQLite draws them at random).
+func (e *Env) san(s string) string {
+	s = strings.ReplaceAll(s, e.Dir, "$D")
+	if strings.Contains(s, "salt") {
+		s = saltRE.ReplaceAllString(s, "($$salt)")
+	}
+	return s
+}
+
+var saltRE = regexp.MustCompile(`\([0-9a-f]{1,8},[0-9a-f]{1,8}\)`)
 
 func (e *Env) event(format string, args ...any) {
 	if len(e.Events) < 5000 {
